@@ -358,6 +358,7 @@ func runC17(c *Check) {
 			}
 		}
 	})
+	extraC17(c, S, lagSite)
 }
 
 func runC18(c *Check) {
